@@ -39,11 +39,7 @@ def inline_lambda(em, lam, argtexts):
     """lambda whose body is a single `return expr;` -> that expression with parameters bound to the
     given lvalue texts; captured variables are the enclosing function's own variables"""
     n = em.skip(lam)
-    if n.get('kind') != 'LambdaExpr': raise Unsupported('expected lambda, got %s' % n.get('kind'))
-    rec = n['inner'][0]
-    op = [c for c in rec.get('inner', []) if c.get('kind') == 'CXXMethodDecl' and c.get('name') == 'operator()']
-    if not op: raise Unsupported('lambda without operator()')
-    op = op[0]
+    op = lambda_call_op(em, lam)       # also the instantiated call operator of a generic lambda
     params = em.params_of(op)
     body = [c for c in op.get('inner', []) if c.get('kind') == 'CompoundStmt'][0]
     stmts = body.get('inner', [])
